@@ -3,6 +3,7 @@
   HTML token and renders to itself (C05).
 -/
 import TwProofs.Lemmas.LexSpan
+import TwProofs.Lemmas.EvalStep
 
 namespace Tw
 open Lx
@@ -165,16 +166,17 @@ theorem evaluateString_plain (custom : List ((VType × Bytes) × Nat)) (s : Byte
     have h1 : parseSource [] = .ok { tok := { ty := .EOF, lit := [], pos := {} }, stmts := [] } := by rfl
     rw [h1]
     simp only [envOrFail, henv]
-    simp [evalFuel, evalProg, resToOut]
+    rw [show evalFuel = 99999 + 1 from rfl, evalProg_nil]
+    simp [resToOut]
   | cons c r =>
     obtain ⟨t, h3, h1⟩ := parseSource_plain c r hp
     refine ⟨c :: r, ?_, rfl⟩
     unfold evaluateStringPure
     rw [h1]
     simp only [envOrFail, henv]
-    rw [show evalFuel = 99998 + 1 + 1 from rfl, evalProg]
-    simp only [evalStmt]
-    rw [evalProg]
+    have e1 : evalProg (99998 + 1 + 1) { custom := custom } env [Stmt.html t] [] = .ok (t.lit, env) := by
+      rw [evalProg_cons, evalStmt_html, Res.bind_ok, evalProg_nil]; simp
+    rw [show evalFuel = 99998 + 1 + 1 from rfl, e1]
     simp [resToOut, h3]
 
 end Tw
